@@ -475,7 +475,7 @@ class SoftwareSwitchBase (object):
     err = ofp_error(type=type, code=code)
     if ofp:
       err.xid = ofp.xid
-      err.data = ofp.pack()
+      err.data = getattr(ofp, '_raw_ofp', None) or ofp.pack()
     else:
       err.xid = 0
     if data is not None:
@@ -1202,6 +1202,7 @@ class OFConnection (object):
 
       io_worker.consume_receive_buf(message_length)
       self.starting = False
+      msg_obj._raw_ofp = message[:message_length] # For quoting in errors
 
       if self.on_message_received is None:
         raise RuntimeError("on_message_receieved hasn't been set yet!")
